@@ -164,6 +164,11 @@ type tScreen struct {
 	cursorColor  Color
 	cursorRGB    string
 	cursorFg     string
+
+	// whether the terminal's cursor currently has a non-default shape / colour
+	cursorStyleSent bool
+	cursorColorSent bool
+
 	saved        *term.State
 	stopQ        chan struct{}
 	eventQ       chan Event
@@ -996,14 +1001,17 @@ func (t *tScreen) showCursor() {
 	if t.cursorStyles != nil {
 		if esc, ok := t.cursorStyles[t.cursorStyle]; ok {
 			t.TPuts(esc)
+			t.cursorStyleSent = t.cursorStyle != CursorStyleDefault
 		}
 	}
 	if t.cursorRGB != "" {
 		if t.cursorColor == ColorReset {
 			t.TPuts(t.cursorFg)
+			t.cursorColorSent = false
 		} else if t.cursorColor.Valid() {
 			r, g, b := t.cursorColor.RGB()
 			t.TPuts(t.ti.TParm(t.cursorRGB, int(r), int(g), int(b)))
+			t.cursorColorSent = true
 		}
 	}
 	t.cx = x
@@ -2105,12 +2113,13 @@ func (t *tScreen) disengage() {
 	ti := t.ti
 	t.cells.Resize(0, 0)
 	t.TPuts(ti.ShowCursor)
-	if t.cursorStyles != nil && t.cursorStyle != CursorStyleDefault {
+	if t.cursorStyles != nil && (t.cursorStyle != CursorStyleDefault || t.cursorStyleSent) {
 		t.TPuts(t.cursorStyles[CursorStyleDefault])
 	}
-	if t.cursorFg != "" && t.cursorColor.Valid() {
+	if t.cursorFg != "" && (t.cursorColor.Valid() || t.cursorColorSent) {
 		t.TPuts(t.cursorFg)
 	}
+	t.cursorStyleSent, t.cursorColorSent = false, false
 	t.TPuts(ti.ResetFgBg)
 	t.TPuts(ti.AttrOff)
 	t.TPuts(ti.ExitKeypad)
